@@ -39,6 +39,7 @@ type pathWalker struct {
 	stop         func(b *ssa.BasicBlock) bool
 	events       []string
 	why          string // reason when undecided
+	last         ssa.Instruction // the Return / Panic that ended the walk
 }
 
 // walk follows the path from block b (entered from pred, may be nil). It
@@ -119,8 +120,10 @@ func (w *pathWalker) walk(b, pred *ssa.BasicBlock) string {
 					}
 				}
 			case *ssa.Return:
+				w.last = x
 				return "return"
 			case *ssa.Panic:
+				w.last = x
 				return "panic"
 			case *ssa.Jump:
 				pred, b = b, b.Succs[0]
